@@ -3,7 +3,7 @@ CONSTANTS
   Keys = {1, 2, 3}
   MaxPub = 8
   MaxSubs = 4
-  Filts = {FALSE}
+  Filts = {FALSE, TRUE}
   Withhold = FALSE
   AsCodedFilter = FALSE
 INVARIANTS TypeOK C14Map
